@@ -1,6 +1,6 @@
 SPECIFICATION Spec
-CONSTANTS MaxPg=3 InitN=2 MaxVer=3 MaxFrames=4 MaxTx=5 MaxGen=4 MaxDown=1 FixF1=FALSE FixF2=FALSE FixG1=FALSE
+CONSTANTS MaxPg=3 InitN=2 MaxVer=3 MaxFrames=4 MaxTx=5 MaxGen=4 MaxDown=1 FixF1=TRUE FixF2=TRUE FixG1=TRUE
   Modes={"PASSIVE","RESTART","TRUNCATE"} AppModes={"PASSIVE","RESTART","TRUNCATE"} AtomicChk=FALSE WithCrash=TRUE
-INVARIANTS C01 Decodable NoUncommitted
+INVARIANTS C01raw Decodable NoUncommitted
 VIEW view
 CHECK_DEADLOCK FALSE
